@@ -53,6 +53,12 @@ class Node:
             for l in lst:
                 if all(l is not s for s in seen):
                     seen.append(l)
+        # also every overlay (or the crypto endpoint fronting it) that SHOULD be listening, whatever the endpoint's tables say
+        for ov in self.overlays:
+            ce = getattr(ov, "crypto_endpoint", None)
+            front = ce if (ce is not None and hasattr(ce, "on_packet") and all(ov is not s for s in seen)) else ov
+            if all(front is not s for s in seen) and all(ov is not s for s in seen):
+                seen.append(front)
         self.listeners = seen
         for i, l in enumerate(seen):
             self.index[id(l)] = i
@@ -62,6 +68,18 @@ class Node:
                 self.events.append(("delivered", _i))
                 return _orig(packet, warn_unknown)
             l.on_packet = spy
+
+    def expected_listeners(self, data):
+        """indices of the listeners that must see this datagram, computed from the overlays themselves (their prefixes),
+        not from the endpoint's own tables: every listener fronting an overlay whose prefix the datagram carries, or - if no
+        overlay has that prefix - the catch-all listeners"""
+        out = []
+        for ov in self.overlays:
+            if data[:22] == ov.get_prefix():
+                i = self.overlay_index(ov)
+                if i is not None and i not in out:
+                    out.append(i)
+        return out
 
     def overlay_index(self, ov):
         """index of the listener that fronts this overlay (itself, or its crypto endpoint)"""
@@ -310,6 +328,10 @@ async def _run(ctx, text):
         got = [e[1] for e in evs if e[0] == "delivered"]
         if esc is None and got != want:
             ctx.violation("not-delivered", "listeners %s selected, delivered to %s" % (want, got), meta)
+        missing = [i for i in node.expected_listeners(data) if i not in got]
+        if esc is None and missing:
+            ctx.violation("not-delivered/overlay-with-that-prefix", "overlays fronted by listeners %s carry the datagram's prefix but were not "
+                          "delivered to (delivered: %s)" % (missing, got), meta)
         mevs = []
         for e in evs:
             if e[0] == "delivered":
@@ -325,6 +347,45 @@ async def _run(ctx, text):
                 mevs.append("Entered %d %d %s" % (node.overlay_index(ov), e[1], zl(hd)))
         if ep_term is not None and esc is None:
             rcases.append(("(%s)" % zl(data), "Ok [%s]" % "; ".join(mevs), meta))
+    # ---- overlays that SHARE a prefix on one endpoint (registration order must not make an earlier one deaf)
+    from ipv8.attestation.identity.community import IdentityCommunity
+    from ipv8.dht.community import DHTCommunity
+    from ipv8.dht.discovery import DHTDiscoveryCommunity
+    from ipv8.messaging.anonymization.community import TunnelCommunity
+    from ipv8.messaging.anonymization.hidden_services import HiddenTunnelCommunity
+    shared_n = 0
+    for combo in ([(DHTCommunity, {}), (DHTDiscoveryCommunity, {})], [(DHTDiscoveryCommunity, {}), (DHTCommunity, {})],
+                  [(TunnelCommunity, {}), (HiddenTunnelCommunity, {})],
+                  [(IdentityCommunity, {"working_directory": ":memory:"}), (IdentityCommunity, {"working_directory": ":memory:"})],
+                  [(DHTCommunity, {}), (TunnelCommunity, {}), (DHTDiscoveryCommunity, {}), (HiddenTunnelCommunity, {})]):
+        net2 = simnet.SimNet()
+        try:
+            n2 = Node(net2, ("10.0.7.1", 1000), combo)
+        except Exception as e:   # noqa
+            ctx.broke("harness: overlays sharing a prefix could not be loaded", repr(e))
+            continue
+        for ov in n2.overlays:
+            for tail in (bytes([1]) + r.randbytes(20), bytes([246]) + r.randbytes(40), r.randbytes(1)):
+                data = ov.get_prefix() + tail
+                esc, evs = n2.feed(data)
+                shared_n += 1
+                ctx.count(("recv-shared", data), nontrivial=True)
+                meta = {"kind": "recv-shared", "overlays": [c.__name__ for c, _ in combo], "data": data.hex()}
+                if esc is not None:
+                    ctx.violation("escape/%s" % esc, "%s escapes Endpoint.notify_listeners for a %d-byte datagram" % (esc, len(data)), meta)
+                    continue
+                got = [e[1] for e in evs if e[0] == "delivered"]
+                missing = [i for i in n2.expected_listeners(data) if i not in got]
+                if missing:
+                    ctx.violation("not-delivered/overlay-with-that-prefix",
+                                  "overlays %s share a prefix on one endpoint; the listeners %s of overlays carrying the datagram's prefix "
+                                  "were not delivered to (delivered: %s)" % ([c.__name__ for c, _ in combo], missing, got), meta)
+        for ov in n2.overlays:
+            try:
+                await ov.unload()
+            except Exception:   # noqa
+                pass
+    ctx.extra["recv_shared_prefix_inputs"] = shared_n
     ctx.extra["recv_inputs"] = len(inputs)
     ctx.extra["handler_entries"] = entered_n
     ctx.sample({"recv_input": inputs[len(inputs) // 3].hex(), "captured_example": captured[0].hex() if captured else None})
@@ -465,7 +526,10 @@ def replay(path):
     for v in js.get("violations", []):
         c = v["case"]
         print(v["key"], "::", v["what"])
-        if c["kind"] == "recv-gen":
+        if c["kind"] == "recv-shared":
+            print("  overlays sharing a prefix:", c["overlays"], "datagram", c["data"][:60])
+            rc = 1
+        elif c["kind"] == "recv-gen":
             from tools.checks import c03_recv_gen
             rc |= c03_recv_gen.replay_case(c)
         elif c["kind"] == "recv":
